@@ -10,6 +10,7 @@ From Coq Require Import ZArith List Bool Lia.
 From IBL.lib Require Import PyInt.
 From IBL.C17 Require Import Model.
 From IBL.C12 Require Import Model Proofs ProofsR2 Cast CastProofs.
+From IBL.C12 Require JointC11.
 Import ListNotations.
 Open Scope Z_scope.
 
@@ -265,6 +266,91 @@ Example C12_example_channel_subset :
               fsize := 0; rate := 30000; subset_hi := 384; subset_orig := []; original_meta := true;
               shank_key := -1 |} in
   lf_col_sources m (shank_chns [0; 1; 0; 1; 1] 6 1 1) = [(true, 1); (true, 3); (true, 4); (false, 5)].
+Proof. vm_compute. reflexivity. Qed.
+
+(* ------------------------------------------------------------------ *)
+(* Round 3: proof debt                                                 *)
+(* ------------------------------------------------------------------ *)
+
+(* Exactly when a conversion produces a stream (ns >= 1): admissible window and at least 144 samples. *)
+Theorem C12_conversion_succeeds_iff : forall ns W, 1 <= ns ->
+  ((exists rs, lf_windows ns W = Some rs) <-> (admissible W = true /\ 144 <= ns)).
+Proof.
+  intros ns W Hns. split.
+  - intros [rs Hrs]. destruct (admissible W) eqn:Ea.
+    + split; [reflexivity|]. destruct (Z_lt_dec ns 144) as [Hlt|]; [|lia].
+      rewrite (short_rejected ns W ltac:(lia) Ea) in Hrs. discriminate.
+    + rewrite (inadmissible_rejected ns W Ea) in Hrs. discriminate.
+  - intros [Ha Hn]. eexists. exact (lf_windows_closed ns W Hn Ha).
+Qed.
+Print Assumptions C12_conversion_succeeds_iff.
+
+(* The model evaluates the converter's `int(x / y)` on exact integers (Z.quot).  As Python evaluates
+   them -- binary64 division of two ints, then truncation (C11's Flocq model of float / int()) -- they
+   are these integers: ratio = int(30000/2500), taper = int(576/4), and for every window size
+   W < 2^52 that is a multiple of 12 the three bounds of _ind2save. *)
+Theorem C12_int_divisions_exact_in_float : forall W, 0 <= W < 2 ^ 52 -> W mod 12 = 0 ->
+  IBL.C11.Model.py_int (IBL.C11.Model.fdiv (IBL.C11.Model.of_Z 30000) (IBL.C11.Model.of_Z 2500)) = Some ratio /\
+  IBL.C11.Model.py_int (IBL.C11.Model.fdiv (IBL.C11.Model.of_Z 576) (IBL.C11.Model.of_Z 4)) = Some taper /\
+  IBL.C11.Model.py_int (IBL.C11.Model.fdiv (IBL.C11.Model.of_Z (144 * 2)) (IBL.C11.Model.of_Z 12)) = Some (Z.quot (144 * 2) 12) /\
+  IBL.C11.Model.py_int (IBL.C11.Model.fdiv (IBL.C11.Model.of_Z W) (IBL.C11.Model.of_Z 12)) = Some (Z.quot W 12) /\
+  (288 <= W -> IBL.C11.Model.py_int (IBL.C11.Model.fdiv (IBL.C11.Model.of_Z (W - 144 * 2)) (IBL.C11.Model.of_Z 12))
+               = Some (Z.quot (W - 144 * 2) 12)).
+Proof. exact JointC11.converter_int_divisions. Qed.
+Print Assumptions C12_int_divisions_exact_in_float.
+
+(* The reopening at the float level of spikeglx.Reader (C11's model, proved there for every sampling
+   rate in [2^-64, 2^64] and up to 2^50 frames): the .lf.bin of nrows rows and nc = nSavedChans columns,
+   whatever finite duration t the stale fileTimeSecs holds (ns0 = int(round(t * 2500))), opens with
+   exactly the integer-level results of this model: rd_open_ns (= nrows) samples, the repair flag
+   rd_fudged, and fileTimeSecs replaced by nrows/2500 exactly when repaired.  This discharges the
+   "n/fs*fs reads back as n" assumption of rd_open_ns. *)
+Theorem C12_reopen_float_level : forall (m : meta) nrows t ns0,
+  1 <= rd_nc m -> 1 <= nrows <= 2 ^ 50 ->
+  IBL.C11.Model.ns_meta (Some t) (IBL.C11.Model.of_me 2500 0) = IBL.C11.Model.NsOk ns0 ->
+  let nc := rd_nc m in
+  let nb := 2 * nc * nrows in
+  let rw := rd_fudged m nb ns0 in
+  IBL.C11.Model.open_bin false 2 nb nc (Some t) (IBL.C11.Model.of_me 2500 0) =
+    IBL.C11.Model.Opened (rd_open_ns m nb ns0) nc
+      (if rw then Some (IBL.C11.Model.rl nrows (IBL.C11.Model.of_me 2500 0)) else Some t) rw /\
+  rd_open_ns m nb ns0 = nrows.
+Proof.
+  intros m nrows t ns0 Hnc Hn Hns0. cbv zeta. split.
+  - exact (JointC11.reopen_float_level m nrows t ns0 Hnc Hn Hns0).
+  - exact (rd_open_ns_exact m nrows ns0 Hnc).
+Qed.
+Print Assumptions C12_reopen_float_level.
+
+(* hypotheses of the theorems above are met by concrete, non-trivial inputs *)
+Example C12_example_margins :
+  option_map (fun rs => (row_margins (nth 1 rs d4))) (lf_windows 1900 612)
+  = Some [(288, 324); (300, 312); (312, 300)] /\ nwin 1900 612 overlap = 37.
+Proof. vm_compute. split; reflexivity. Qed.
+
+Example C12_example_sync :
+  lf_sync sync_cast (fun p => (p * 4735 + 48673) mod 65536 - 32768) 150 588 =
+  Some (map (fun m => ((12 * m) * 4735 + 48673) mod 65536 - 32768) (zrange 13)).
+Proof. vm_compute. reflexivity. Qed.
+
+Example C12_example_meta_NP21 :
+  let m := {| acq0 := 384; acq1 := 0; acq2 := 1; sns0 := 4; sns1 := 0; sns2 := 1; nsaved := 5;
+              fsize := 0; rate := 30000; subset_hi := 384; subset_orig := []; original_meta := true;
+              shank_key := -1 |} in
+  Forall (fun s => s = 0) [0; 0; 0; 0] /\ nsaved m = Z.of_nat (length [0; 0; 0; 0]) + 1 /\
+  let '(chns, m', nb, rd) := lf_file 21 m [0; 0; 0; 0] 13 12 0 in
+  chns = [0; 1; 2; 3; 4] /\ nb = 130 /\ rd = (5, 2500, true, 1, 13) /\ rd_fudged m' nb 12 = true.
+Proof. vm_compute. repeat split; repeat constructor. Qed.
+
+Example C12_example_rounding :
+  (* D = 1000 (milli-LSB): u = 12.499, v = 12.501 LSB, eps = 2 milli-LSB *)
+  round_half_even_div 12499 1000 = 12 /\ round_half_even_div 12501 1000 = 13 /\
+  round_half_even_div 12500 1000 = 12 /\ round_half_even_div 13500 1000 = 14.
+Proof. vm_compute. repeat split. Qed.
+
+Example C12_example_reopen_hypothesis :
+  (* fileTimeSecs = 1 s announces int(round(1 * 2500)) = 2500 samples *)
+  IBL.C11.Model.ns_meta (Some (IBL.C11.Model.of_me 1 0)) (IBL.C11.Model.of_me 2500 0) = IBL.C11.Model.NsOk 2500.
 Proof. vm_compute. reflexivity. Qed.
 
 (* The hypotheses of the two value theorems are satisfiable (a 3-tap moving sum as the filter,
